@@ -37,8 +37,8 @@ mech("octet-stream-client",
  [("C01","deliver/*/octet-stream*",["handler-not-reached","client-error"],None)])
 
 mech("dot-segment-path-values",
- "a path-bound string value of '.' or '..' is not escaped by the clients; the HTTP stack cleans/redirects the path and the RPC is never reached",
- [("C01","deliver/*@#*:dot-segments|*",["handler-not-reached"],None)])
+ "a path-bound string value of '.' or '..' is not escaped by the clients; the HTTP stack cleans/redirects the path and the RPC is never reached (or, when another route covers the cleaned path, a different RPC is)",
+ [("C01","deliver/*@#*:dot-segments|*",["handler-not-reached","wrong-handler"],None)])
 
 mech("client-query-kinds",
  "Go client query-parameter code compares every field with a scalar zero literal: optional, repeated, enum and bytes query fields do not compile",
